@@ -43,6 +43,20 @@ func checkBez(report func(key, what string, desc any), cp []v2.Vec, closed bool,
 	}
 	calls := s.calls
 	desc := map[string]any{"control_points": cp, "closed": closed, "random_answers": fmt.Sprint(d)}
+	if err == nil && len(d) == 0 {
+		// sampling the same curve value a second time must give the same polyline
+		vs2, err2 := polygonAgain(b)
+		same := err2 == nil
+		if same {
+			same = len(vs2) == len(vs)
+			for i := 0; same && i < len(vs); i++ {
+				same = vs2[i] == vs[i]
+			}
+		}
+		if !same {
+			report("Bezier.Polygon|second-call-on-the-same-curve-differs", fmt.Sprintf("control polygon %v closed=%v: Polygon() called twice on one Bezier value gives different results (second error: %v)", cp, closed, err2), desc)
+		}
+	}
 	deg := len(cp) - 1
 	cls := fmt.Sprintf("degree-%d", deg)
 	straight := true
@@ -124,6 +138,67 @@ func checkBez(report func(key, what string, desc any), cp []v2.Vec, closed bool,
 	return calls
 }
 
+// checkTrailingMid: first point an end point, every other point a mid control point, then Close(): the
+// closing end point is the first point, so the curve is the Bezier curve of cp followed by cp[0]
+// (degree len(cp)); this includes control polygons whose last mid point coincides with the start.
+func checkTrailingMid(report func(key, what string, desc any), cp []v2.Vec) {
+	allSame := true
+	for _, p := range cp {
+		if p != cp[0] {
+			allSame = false
+		}
+	}
+	if allSame {
+		return
+	}
+	sdf.VerifSetRand(&src{})
+	b := sdf.NewBezier()
+	for i, p := range cp {
+		bv := b.AddV2(p)
+		if i > 0 {
+			bv.Mid()
+		}
+	}
+	b.Close()
+	desc := map[string]any{"control_points": cp, "closed": true, "all_but_the_first_are_mid_points": true}
+	cls := fmt.Sprintf("degree-%d", len(cp))
+	if cp[len(cp)-1] == cp[0] {
+		cls += ",last-mid-point-on-the-start"
+	}
+	pg, err := b.Polygon()
+	if err != nil {
+		report("Bezier.Polygon|closed-with-trailing-mid-points|error|"+cls, fmt.Sprintf("control polygon %v + Close(): %v", cp, err), desc)
+		return
+	}
+	vs := pg.Vertices()
+	full := append(append([]v2.Vec{}, cp...), cp[0])
+	if len(vs) < 2 || vs[0] != cp[0] || vs[len(vs)-1] != cp[0] {
+		report("Bezier.Polygon|closed-with-trailing-mid-points|not-closed-at-the-start-point|"+cls, fmt.Sprintf("control polygon %v + Close(): vertices %v", cp, vs), desc)
+		return
+	}
+	for i, q := range vs {
+		if _, d := paramOf(full, q, 0); d > 1e-9 {
+			report("Bezier.Polygon|closed-with-trailing-mid-points|vertex-not-on-curve|"+cls, fmt.Sprintf("control polygon %v + Close(): vertex %d = %v is %g from the curve", cp, i, q, d), desc)
+			return
+		}
+	}
+}
+
+// polygonAgain calls b.Polygon() a second time and converts a panic into an error.
+func polygonAgain(b *sdf.Bezier) (vs []v2.Vec, err error) {
+	defer func() {
+		if r := recover(); r != nil {
+			err = fmt.Errorf("panic: %v", r)
+		}
+	}()
+	sdf.VerifSetRand(&src{})
+	pg, e := b.Polygon()
+	if e != nil {
+		return nil, e
+	}
+	return pg.Vertices(), nil
+}
+
 func bezierPart(c *vlib.Ctx) (int64, int64, any) {
 	var g3 []v2.Vec
 	for x := 0; x < 3; x++ {
@@ -198,6 +273,16 @@ func bezierPart(c *vlib.Ctx) (int64, int64, any) {
 								report("Bezier.Handle|ends", fmt.Sprintf("handles %v: err %v vertices %v", desc["handles_theta_r"], err, vs), desc)
 								continue
 							}
+							if vs2, err2 := polygonAgain(b); err2 != nil || len(vs2) != len(vs) {
+								report("Bezier.Handle|second-call-on-the-same-curve-differs", fmt.Sprintf("handles %v: Polygon() called twice on one Bezier value: second call: %v, %d vertices (first: %d)", desc["handles_theta_r"], err2, len(vs2), len(vs)), desc)
+							} else {
+								for i, q := range vs2 {
+									if q != vs[i] {
+										report("Bezier.Handle|second-call-on-the-same-curve-differs", fmt.Sprintf("handles %v: vertex %d is %v on the first call and %v on the second", desc["handles_theta_r"], i, vs[i], q), desc)
+										break
+									}
+								}
+							}
 							for i, q := range vs {
 								if _, d := paramOf(cp, q, 0); d > 1e-9 {
 									report("Bezier.Handle|vertex-not-on-curve-defined-by-handles", fmt.Sprintf("handles %v: vertex %d = %v is %g from the cubic %v", desc["handles_theta_r"], i, q, d, cp), desc)
@@ -213,6 +298,10 @@ func bezierPart(c *vlib.Ctx) (int64, int64, any) {
 		for i := job * chunk; i < (job+1)*chunk && i < len(cps); i++ {
 			cp := cps[i]
 			jb.States++
+			if len(cp) <= 4 {
+				checkTrailingMid(report, cp)
+				jb.Transitions++
+			}
 			for _, closed := range []bool{false, true} {
 				calls := checkBez(report, cp, closed, nil)
 				jb.Transitions++
